@@ -195,7 +195,12 @@ def collect_creates(ctx, out):
     for t in ctx.trace:
         if isinstance(t, CallContext):
             if t.message.is_create():
-                out.append(("CREATE2" if t.message.call_scheme == 0xF5 else "CREATE", t.message.target))
+                tgt = t.message.target
+                if hasattr(tgt, "as_z3"):
+                    tgt = tgt.as_z3()
+                if z3.is_bv_value(tgt):
+                    tgt = tgt.as_long()
+                out.append(("CREATE2" if t.message.call_scheme == 0xF5 else "CREATE", tgt))
             collect_creates(t, out)
 
 
@@ -217,6 +222,10 @@ def run_halmos(spec, storage_layout=None):
     from halmos.sevm import EMPTY_BALANCE, SEVM, CallContext, Message, Path
     from halmos.utils import EVM, con_addr
 
+    from halmos.mapper import BuildOut
+
+    if BuildOut()._build_out_map is None:
+        BuildOut().set_build_out({})  # as run_contract() does before any execution
     opts = dict(spec.get("options") or {})
     args = mk_args(**opts)
     sevm = SEVM(args, FunctionInfo("C", "f", "f()", "00000000"))
